@@ -77,3 +77,20 @@ Definition groups_apart (g h : grp) : bool :=
   && negb (existsb (str_eqb (g_key g)) (g_defaults h)).
 
 Definition universe_ok (gs : list grp) : bool := forallb group_ok gs && pairwise groups_apart gs.
+
+(* ---- chains over a universe: operations in application order as (group index, operation) ---- *)
+Definition grp_at (gs : list grp) (i : nat) : grp := nth i gs g_aggr.
+
+Definition chain_name (gs : list grp) (src : str) (ops : list (nat * str)) : str :=
+  render_chain src (map (fun x => (snd x, g_suf (grp_at gs (fst x)))) ops).
+
+(* every step names an existing group and a well-formed operation (one of the mapped operations where the group
+   checks that when it extracts the operation) *)
+Definition op_ok (gs : list grp) (x : nat * str) : bool :=
+  (fst x <? List.length gs) && wf_op (snd x)
+  && (negb (g_name_strict (grp_at gs (fst x))) || existsb (str_eqb (snd x)) (g_vocab (grp_at gs (fst x)))).
+Definition chain_ok (gs : list grp) (ops : list (nat * str)) : bool := forallb (op_ok gs) ops.
+
+(* what resolving must give: the operations from the outside in (last applied first), down to the plain source *)
+Definition expected_walk (ops : list (nat * str)) (src : str) : walk :=
+  WEnd (rev (map (fun x => (fst x, PStr (snd x))) ops)) (feat src).
